@@ -200,6 +200,43 @@ def run(ctx):
         ctx.count("traffic_logs")
         if snap.bytes != b"".join(segs):
             ctx.fail("snapshot:traffic_log", "traffic log does not reassemble to the transferred block", {"segments": [list(s) for s in segs], "parsed": list(snap.bytes)})
+    # ---- whole connection logs through parse_log_file: "Starting spa connection handshake..." / the status transfer / "Spa is connected",
+    #      then the client's later traffic (a refresh transferring ANOTHER block), then possibly a second connection: one snapshot per
+    #      connection, each holding the block that was transferred during ITS handshake
+    def connection_log(blk, after=None, closed=True):
+        lines = ["2020-12-12 09:36:40,000 geckolib.spa INFO Starting spa connection handshake..."]
+
+        def transfer(b):
+            segs = [b[a:a + 39] for a in range(0, len(b), 39)]
+            out = []
+            for i, sg in enumerate(segs):
+                d = b"STATV" + struct.pack(">BBB", i, (i + 1) % len(segs), len(sg)) + sg
+                full = b"<PACKT><SRCCN>A</SRCCN><DESCN>B</DESCN><DATAS>" + d + b"</DATAS></PACKT>"
+                out.append("2020-12-12 09:36:48,000 geckolib.driver.udp_socket DEBUG " + ("Received %s from %s" % (full, ("10.0.0.1", 10022))))
+            return out
+        lines += transfer(blk)
+        if closed:
+            lines.append("2020-12-12 09:36:49,000 geckolib.spa INFO Spa is connected")
+        if after is not None:
+            lines += transfer(after)
+        return lines
+    for k in range(8 if ctx.thorough else 4):
+        b1 = bytes(rng.choice([65, 66, 0, 7, rng.randrange(256)]) if rng.random() < 0.9 else 92 for _ in range(rng.choice([1024, 390, 78])))
+        b2 = bytes(rng.randrange(32, 91) for _ in range(len(b1)))
+        b3 = bytes(rng.randrange(32, 91) for _ in range(rng.choice([1024, 117])))
+        b1 = b1.replace(b"[", b"(")          # '[' in a traffic line also matches the shell's data-line pattern (outside this property)
+        shapes = [([connection_log(b1)], [b1]), ([connection_log(b1, after=b2)], [b1]), ([connection_log(b1, after=b2), connection_log(b3)], [b1, b3]),
+                  ([connection_log(b1, closed=False)], [b1])]
+        for logs, want in shapes:
+            got = parse_lines([l for lg_ in logs for l in lg_])
+            ctx.count("connection_log_files")
+            ctx.case(("connlog", k, len(logs), tuple(len(w) for w in want), b1[:8]), nontrivial=True)
+            gotb = [bytes(g.bytes) for g in got]
+            if gotb != want:
+                ctx.fail("snapshot:connection_log_file", "a log file with %d connection(s) parses to %d snapshot(s) with blocks of %r bytes, expected %d with %r bytes (each the block transferred during its own handshake)"
+                         % (len(logs), len(got), [len(x) for x in gotb], len(want), [len(x) for x in want]), {"connections": len(logs), "snapshots": len(got), "block_lengths": [len(x) for x in gotb],
+                                                                                                                "first_block_equal": bool(gotb) and gotb[0] == want[0]})
+                break
     # ---- quoting corner cases of the logged bytes repr: every arrangement of quote / double quote / backslash / letter (length 1..3)
     # in a short segment whose header holds none of them (the 39-byte segments carry 0x27 in their length byte)
     import itertools
